@@ -170,6 +170,43 @@ def c13(cfg):
             return items
 
         rel = Rel(kind, [dict(base, terms=terms1), dict(base, terms=terms2)], relation)
+    elif kind in ("merge3_01", "merge3_02", "merge3_12", "merge3_all"):
+        # groupings of three parameters: the named pair (or all three) share one parameter
+        terms3 = {(1, 0, 0): A, (0, 1, 0): Bm, (0, 0, 1): Cm}
+        if kind == "merge3_all":
+            groups = [0, 0, 0]
+        else:
+            pair = (int(kind[-2]), int(kind[-1]))
+            groups = [0, 0, 0]
+            other = ({0, 1, 2} - set(pair)).pop()
+            groups[pair[0]] = groups[pair[1]] = 0
+            groups[other] = 1
+        ng = max(groups) + 1
+        mats = [A, Bm, Cm]
+        terms1 = {}
+        for k in range(3):
+            key = tuple(1 if g == groups[k] else 0 for g in range(ng))
+            terms1[key] = mats[k] if key not in terms1 else terms1[key] + mats[k]
+
+        def relation(outs, sc, N, groups=groups, ng=ng):
+            items = []
+            for o in outs[0][0]:
+                for w in range(3):
+                    acc = None
+                    for o3, t in outs[1][w].items():
+                        if all(sum(o3[k] for k in range(3) if groups[k] == g) == o[g] for g in range(ng)):
+                            acc = t if acc is None else acc + t
+                    items.append((f"{NAMES[w]} order={o}", outs[0][w][o], acc))
+            return items
+
+        rel = Rel(kind, [dict(base, terms=terms1), dict(base, terms=terms3)], relation)
+    elif kind == "scale3":
+        c1, c2, c3 = SymC(symc.real("c1")), SymC(symc.real("c2")), SymC(symc.real("c3"))
+        terms1 = {(1, 0, 0): A, (0, 1, 0): Bm, (0, 0, 1): Cm}
+        terms2 = {(1, 0, 0): A * c1, (0, 1, 0): Bm * c2, (0, 0, 1): Cm * c3}
+        rel = Rel(kind, [dict(base, terms=terms1), dict(base, terms=terms2)],
+                  lambda outs, sc, N: [(f"{NAMES[w]} order={o}", outs[1][w][o], _mul(sc["c1"] ** o[0] * sc["c2"] ** o[1] * sc["c3"] ** o[2], outs[0][w][o])) for o in outs[0][0] for w in range(3)],
+                  {"c1": c1, "c2": c2, "c3": c3})
     elif kind == "permute":
         terms1 = {(1, 0): A, (0, 1): Bm, (2, 0): Cm}
         terms2 = {(0, 1): A, (1, 0): Bm, (0, 2): Cm}
@@ -647,7 +684,7 @@ def configs_c13(tier):
 
     cfgs = []
     layouts = [[1, 1], [1, 2], [2, 1], [1, 1, 1]] + ([[2, 2], [1, 1, 2], [1, 3], [2, 1, 1], [1, 1, 1, 1]] if tier == "thorough" else [])
-    rels = ["scale1", "scale2", "merge", "permute", "vanishing", "power2"] + (["power3", "permute3"] if tier == "thorough" else [])
+    rels = ["scale1", "scale2", "merge", "permute", "vanishing", "power2"] + (["power3", "permute3", "merge3_01", "merge3_02", "merge3_12", "merge3_all", "scale3"] if tier == "thorough" else [])
     for herm in (True, False):
         for sizes in layouts:
             N = sum(sizes)
@@ -657,7 +694,7 @@ def configs_c13(tier):
                     mo = 2
                 if r == "power3":
                     mo = 1 if N > 2 else 2
-                if r == "permute3":
+                if r == "permute3" or r.startswith("merge3") or r == "scale3":
                     mo = 2 if N > 2 else 3
                 spec = RAT_SPECTRA[N] if herm else CPLX_SPECTRA.get(N, RAT_SPECTRA[N])
                 cfgs.append(dict(carrier="B", hermitian=herm, sizes=sizes, spectrum=spec, relation=r, max_order=mo))
@@ -672,6 +709,10 @@ def configs_c13(tier):
         cfgs.append(dict(carrier="A", hermitian=True, sizes=[2, 1], spectrum=["0", "2", "1"], relation=r, max_order=3, fd=[0]))
         cfgs.append(dict(carrier="A", hermitian=True, sizes=[3], spectrum=["0", "1", "2"], relation=r, max_order=2,
                          fd={"0": [[0, 1, 0], [1, 0, 0], [0, 0, 0]]}))
+    if tier == "quick":
+        # one three-parameter grouping already in the quick tier
+        cfgs.append(dict(carrier="B", hermitian=True, sizes=[1, 2], spectrum=RAT_SPECTRA[3], relation="merge3_02", max_order=2))
+        cfgs.append(dict(carrier="B", hermitian=False, sizes=[1, 1], spectrum=CPLX_SPECTRA[2], relation="merge3_all", max_order=3))
     jobs = [("vf.props.relations", "c13", c) for c in cfgs]
     for herm in (True, False):
         for sizes in ([1, 1], [1, 2]):
